@@ -528,7 +528,7 @@ pub fn cmd_seq(args: &Args) -> i32 {
                 entry["min_steps"] = json!(min.steps.len());
                 entry["min_detail"] = json!(minres.violation.map(|x| x.1));
             }
-            if violations.len() < 400 {
+            if crate::util::room(&violations, entry["kind"].as_str().unwrap_or("")) {
                 violations.push(entry);
             }
         }
